@@ -407,7 +407,7 @@ class UBXReader:
                 raise UBXParseError(
                     (
                         f"Invalid payload length {lenb}"
-                        f" - should be {val2bytes(leni, U2)}"
+                        f" - should be {val2bytes(leni, U2) if leni < 65536 else leni}"
                     )
                 )
             if ckm != ckv:
